@@ -21,6 +21,7 @@ extern("entity.getId", event="entity.getId", returns=Str, pure=True)
 extern("entity.getTag", event="entity.getTag", returns=Str, pure=True)
 extern("entity.getType", event="entity.getType", returns=Str, pure=True)
 extern("entity.toProtocolTreeNode", event="entity.toProtocolTreeNode", returns=Opaque("node"))
+event_sort("entity.toProtocolTreeNode", "obj")
 
 
 def is_reply(reg, node):
@@ -47,6 +48,9 @@ def _sendIq(self: Obj("YowProtocolLayer"), iqEntity: Opaque("entity"), onSuccess
     ensures(map_eq(self.iqRegistry, map_put(old(self.iqRegistry), event_result("entity.getId", 0), (iqEntity, onSuccess, onError))))
     ensures(n_events("toLower") == 1 and same_obj(event_arg("toLower", 0), event_result("entity.toProtocolTreeNode", 0)))
     ensures(at_event("toLower", 0, contains_key(self.iqRegistry, event_result("entity.getId", 0))))
+    # it is THIS request that is serialised and whose id is the key
+    ensures(n_events("entity.toProtocolTreeNode") == 1 and same_obj(event_arg("entity.toProtocolTreeNode", 0, 0), iqEntity)
+            and event_result("entity.getId", 0) == getter("entity.getId", iqEntity))
     propagates("toLower")
 
 
